@@ -81,3 +81,127 @@ def membership_violations(spec, obs, prop="C01"):
         elif not touched and oracles.on_bound(coords, a.position):
             touched = True
     return out, n_agents, touched
+
+
+def _twin(spec):
+    from . import tasks
+    return tasks.build_task(spec["task"])
+
+
+def cost_violations(spec, obs, prop="C02"):
+    """C02: cost == objective(position) in the user's sign (checker's own evaluation), == objective of the
+    decoded solution, fitness == documented function of the reported cost."""
+    t = spec["task"]
+    coords = oracles.flat_coords(t)
+    twin = _twin(spec)
+    out, seen = [], set()
+    costs = set()
+    n = 0
+    skipped = 0
+
+    def add(kind, detail):
+        key = f"{prop}|{spec['optimizer']}|{kind}"
+        if key not in seen:
+            seen.add(key)
+            out.append((key, detail))
+
+    for where, a in all_reported(obs):
+        if oracles.member(coords, a.position) is not None:
+            skipped += 1          # C01's business
+            continue
+        n += 1
+        costs.add(repr(float(a.cost)))
+        c_true = oracles.truth_from_position(t, a.position)
+        if not oracles.close(float(a.cost), float(c_true)):
+            add("cost", f"{where}: reported cost {a.cost!r}, objective at the reported position {c_true!r}")
+        try:
+            decoded = twin.transform_solution(a.position)
+            c_dec = oracles.truth_from_decoded(t, decoded)
+            if not oracles.close(float(a.cost), float(c_dec)):
+                add("decoded", f"{where}: reported cost {a.cost!r}, objective of transform_solution(position) "
+                               f"{c_dec!r} ({decoded!r})"[:400])
+        except Exception as e:  # noqa: BLE001 - a decoding failure on a member position is itself a disagreement
+            add("decoded", f"{where}: transform_solution({a.position!r}) raised {type(e).__name__}: {e}"[:300])
+        c = float(a.cost)
+        if c == c:
+            f = oracles.fitness_of(c)
+            if not oracles.close(float(a.fitness), f, rel=1e-12):
+                add("fitness", f"{where}: cost {c!r} -> fitness {a.fitness!r}, documented value {f!r}")
+    return out, n, len(costs), skipped
+
+
+def best_violations(spec, obs, prop="C03"):
+    res = obs.result
+    last = res.evolution[-1].agents
+    b = res.best_solution
+    mm = spec["task"]["minmax"]
+    out = []
+    key = f"{prop}|{spec['optimizer']}|"
+    if b is None:
+        return [(key + "missing", "best_solution is None")], False, False
+    if len(last) == 0:
+        return [(key + "empty-final-generation", "last generation is empty")], False, False
+    bp = observe.plain_position(b.position)
+    if not any(observe.plain_position(a.position) == bp and (a.cost == b.cost or (a.cost != a.cost and b.cost != b.cost))
+               for a in last):
+        out.append((key + "not-in-last-generation",
+                    f"best_solution (cost {b.cost!r}) is not an agent of the last generation"))
+    costs = [a.cost for a in last]
+    better = [c for c in costs if (c < b.cost if mm == "min" else c > b.cost)]
+    if better:
+        out.append((key + "not-optimal", f"{mm} task: best_solution.cost={b.cost!r} but the last generation "
+                                         f"holds {better[0]!r}"))
+    opt = min(costs) if mm == "min" else max(costs)
+    ties = sum(1 for c in costs if c == opt) > 1
+    distinct = len(set(costs)) >= 2
+    return out, distinct, ties
+
+
+def size_violations(spec, obs, prop="C10"):
+    ps = obs.config.population_size
+    name = spec["optimizer"]
+    out = []
+    sizes = [len(g.agents) for g in obs.result.evolution]
+    for k, s in enumerate(sizes):
+        if s < 1 or s > ps:
+            out.append((f"{prop}|{name}|out-of-range", f"generation {k} has {s} agents, population_size={ps}"))
+            break
+    if name not in registry.VARIABLE_POPULATION:
+        for k, s in enumerate(sizes):
+            if s != ps:
+                out.append((f"{prop}|{name}|not-conserved", f"generation {k} has {s} agents, population_size={ps}"))
+                break
+    elif name == "BeeColonyOptimization" and len(set(sizes)) > 1:
+        out.append((f"{prop}|{name}|not-constant", f"sizes {sizes}"))
+    return out
+
+
+def call_violations(spec, obs, prop="C05"):
+    out, seen = [], set()
+    for kind, coord, detail, where in obs.bad_calls:
+        key = f"{prop}|{spec['optimizer']}|{kind}|{where}"
+        if key not in seen:
+            seen.add(key)
+            out.append((key, f"objective_function called with a non-member: coordinate {coord}: {detail}"))
+    return out
+
+
+def monotone_violations(spec, obs, prop="C17"):
+    mm = spec["task"]["minmax"]
+    bests = []
+    for g in obs.result.evolution:
+        cs = [a.cost for a in g.agents]
+        bests.append(min(cs) if mm == "min" else max(cs))
+    out = []
+    for k, (b1, b2) in enumerate(zip(bests, bests[1:])):
+        if (b2 > b1) if mm == "min" else (b2 < b1):
+            out.append((f"{prop}|{spec['optimizer']}|best-lost",
+                        f"{mm} task: best cost of generation {k} is {b1!r}, of generation {k + 1} is {b2!r}"))
+            break
+    b = obs.result.best_solution
+    ever = min(bests) if mm == "min" else max(bests)
+    if not out and b is not None and b.cost != ever:
+        out.append((f"{prop}|{spec['optimizer']}|best-not-best-ever", f"best_solution.cost={b.cost!r}, best ever "
+                                                                       f"recorded {ever!r}"))
+    improved = any(((b2 < b1) if mm == "min" else (b2 > b1)) for b1, b2 in zip(bests, bests[1:]))
+    return out, improved, bests
